@@ -57,6 +57,15 @@ def load_prop(pid):
     with open(path, "rb") as f:
         d = tomllib.load(f)
     d["id"] = pid
+    # registry fragments props/<ID>.<part>.toml: their list-valued keys are appended
+    for fn in sorted(os.listdir(PROPS_DIR)):
+        if fn.startswith(pid + ".") and fn.endswith(".toml") and fn != f"{pid}.toml":
+            with open(os.path.join(PROPS_DIR, fn), "rb") as f:
+                frag = tomllib.load(f)
+            for k, v in frag.items():
+                if isinstance(v, list):
+                    d.setdefault(k, [])
+                    d[k] = list(d[k]) + v
     d.setdefault("inject", [])
     d.setdefault("swap", [])
     d.setdefault("harness", [])
@@ -104,6 +113,17 @@ def build_overlay(prop, root):
     if os.path.isdir(MODEL_DIR):
         shutil.copytree(MODEL_DIR, mdst, dirs_exist_ok=True,
                         ignore=shutil.ignore_patterns("target"))
+    # [[anchor]]: source text a harness TRANSCRIBES (call order it cannot execute). If the text is no
+    # longer present in the current tree the transcription is stale: the run is inconclusive (exit 2),
+    # never a pass.
+    for a in prop.get("anchor", []):
+        target = os.path.join(src, a["file"])
+        if not os.path.isfile(target):
+            raise InfraError(f"anchored file {a['file']} no longer exists in /repo")
+        norm = lambda t: re.sub(r"\s+", " ", t).strip()
+        if norm(a["text"]) not in norm(open(target, errors="replace").read()):
+            raise InfraError(f"transcription anchor not found in {a['file']}: `{a['text'][:120]}` — the code a harness "
+                             f"transcribes has changed; the transcription in {a.get('harness', 'the harness')} must be reviewed")
     modmap = {}  # harness name -> fully qualified
     crates_with_model = set()
     for inj in prop["inject"]:
